@@ -13,7 +13,7 @@
                             content hashes);
            [is_commit db c] find_commit succeeds on c. *)
 From GixV.Base Require Import Bytes BytesFacts Outcome.
-From GixV.C54 Require Import Model Spec ProofsBase ProofsFuel ProofsMain ProofsWk ProofsAny.
+From GixV.C54 Require Import Model Spec ProofsBase ProofsFuel ProofsMain ProofsWk ProofsAny ProofsKind.
 
 (* the walk terminates within fuel_of db = 2 + (number of tree-mode entries in db) queue pops, and
    nothing in it can panic: for ANY database (cycles, wrong kinds, undecodable objects) and ANY ids *)
@@ -62,6 +62,13 @@ Theorem any_db_reports_once_and_sound : forall db cs,
   exists calls seenf, connectivity db cs = Ok (calls, seenf) /\
     NoDup (all_reports calls) /\ Forall2 (call_sound db) cs calls.
 Proof. exact L_any. Qed.
+
+(* the Kind handed to the callback (any database, any ids): Tree only for an id that a node reachable
+   from the call's commit names by a tree-mode entry or as the commit's tree, Blob only for one named by a
+   blob/exe/link-mode entry *)
+Theorem reported_kind_is_a_reference_kind : forall db cs,
+  exists calls seenf, connectivity db cs = Ok (calls, seenf) /\ Forall2 (call_kinds db) cs calls.
+Proof. exact L_kinds. Qed.
 
 (* a commit id that cannot be read (missing / other kind / undecodable) makes check_commit return Err
    once; the id is then in the seen-set and a second check of it returns Ok(()) *)
